@@ -703,6 +703,9 @@ def patches_from_ed_script(
             if c in ('.\n', '.', b'.\n', b'.'):
                 break
             lines.append(c)
+        else:
+            # the text block was not terminated by a "." line
+            raise ValueError("end of stream in command: %r" % line)
         yield (first, last, lines)
 
 patchesFromEdScript = function_deprecated_by(patches_from_ed_script)
